@@ -44,7 +44,7 @@ func multipartBody(fields map[string]string, fileField, fileName string, content
 func genPathPlan(r *rand.Rand) *plan.Plan {
 	k := plan.Knobs{Sched: true, Procs: 2, PQS: &boolF}
 	p := &plan.Plan{Knobs: k, Params: map[string]any{"path_police": true, "sentinel": true}}
-	inc := plan.Incarnation{Boot: "full", SchedSeed: r.Uint64() | 1}
+	inc := plan.Incarnation{Boot: "full", SchedSeed: r.Uint64()>>11 | 1}
 	name := func() string {
 		if r.IntN(4) == 0 {
 			return benignNames[r.IntN(len(benignNames))]
